@@ -1,7 +1,278 @@
-import GIV.Model.ScriptUpdate
-namespace GIV.C16
-open GIV GIV.TsRun GIV.TsRun.Update
+/-
+  C16 — UpdateScripts rewrites only the mismatching golden entries.
 
-theorem lookupU_nil (n : Bytes) : lookupU [] n = none := rfl
+  Model: GIV.Model.ScriptUpdate (`doCmp`, `record`, `applyUpdates`, `finish`) over the txtar model;
+  the verdict side uses the skeleton of GIV.Model.Script, so `update_makes_pass` holds for every
+  `Config` (every command semantics).  The txtar facts come from the C03/C14 proofs
+  (GIV.Lemmas.TxtarParse / TxtarQuote): `parse_wf`, `parse_format_of_wf`, `quote_bodyOK`,
+  `bodyOK_iff_needsQuote`.
+
+  Regenerated facts enter through `cmp_facts` and `apply_facts` (and the txtar fact classes).
+-/
+import GIV.Model.ScriptUpdate
+import GIV.Model.ScriptCmds
+import GIV.Lemmas.TsRun
+import GIV.Lemmas.TsRunUpdate
+import GIV.Lemmas.TsRunCmds
+import GIV.Lemmas.TxtarQuote
+
+namespace GIV.C16
+open GIV GIV.Txtar GIV.TsRun GIV.TsRun.Update
+
+variable {σ : Type}
+
+def bs (s : String) : Bytes := s.toList.map (fun ch => ch.toNat.toUInt8)
+
+/-- (for the examples) -/
+instance {ε α : Type} [DecidableEq ε] [DecidableEq α] : DecidableEq (Except ε α)
+  | .ok a, .ok b => if h : a = b then isTrue (by rw [h]) else isFalse (by intro h'; cases h'; exact h rfl)
+  | .error a, .error b => if h : a = b then isTrue (by rw [h]) else isFalse (by intro h'; cases h'; exact h rfl)
+  | .ok _, .error _ => isFalse (by intro h; cases h)
+  | .error _, .ok _ => isFalse (by intro h; cases h)
+
+theorem cmp_facts : CmpFacts := ⟨rfl, rfl, rfl, rfl⟩
+
+theorem apply_facts : ApplyFacts := ⟨rfl, rfl, rfl, rfl⟩
+
+/-! ### which comparisons record an update -/
+
+/-- doCmdCmp records an update exactly for a plain (`cmp`, not `cmpenv`), non-negated comparison
+that mismatches, under UpdateScripts, whose second path is a key of `ts.scriptFiles` — and what it
+records is the entry's name with the *actual* content (the first file). -/
+theorem only_plain_cmp_updates (i : CmpIn) (n c : Bytes) :
+    doCmp i = .recorded n c ↔
+      (i.updateScripts = true ∧ i.env = false ∧ i.neg = false ∧ i.text1 ≠ i.text2 ∧
+        i.entry = some n ∧ c = i.text1) := by
+  exact doCmp_recorded_iff cmp_facts i n c
+
+example : doCmp ⟨true, false, false, bs "new\n", bs "old\n", some (bs "g")⟩ = .recorded (bs "g") (bs "new\n") := by decide
+
+/-- In every other case the comparison is the plain one: `cmpenv`, `! cmp`, a second file outside the
+archive, or no UpdateScripts — nothing is recorded, a mismatch is a failure. -/
+theorem no_update_otherwise (i : CmpIn)
+    (h : i.updateScripts = false ∨ i.env = true ∨ i.neg = true ∨ i.entry = none) :
+    doCmp i = (if i.neg then (if i.text1 = i.text2 then .fatal else .ok)
+               else if i.text1 = i.text2 then .ok else .fatal) := by
+  rw [doCmp_eq cmp_facts]
+  cases hneg : i.neg <;> simp
+  by_cases heq : i.text1 = i.text2 <;> simp [heq]
+  rcases h with h | h | h | h <;> simp_all
+
+example : doCmp ⟨true, true, false, bs "new\n", bs "old\n", some (bs "g")⟩ = .fatal ∧
+    doCmp ⟨true, false, true, bs "new\n", bs "old\n", some (bs "g")⟩ = .ok ∧
+    doCmp ⟨true, false, false, bs "new\n", bs "old\n", none⟩ = .fatal ∧
+    doCmp ⟨false, false, false, bs "new\n", bs "old\n", some (bs "g")⟩ = .fatal := by decide
+
+/-- … and without a recorded update the script file is not written at all (not even reformatted). -/
+theorem no_update_no_write (v : Verdict) (file : Bytes) (a : Archive) : finish v file a [] = (v, file) := by
+  have : Gen.TsRun.applyNoopWhenEmpty = true := rfl
+  simp [finish, this]
+
+/-- `ts.scriptUpdates` is a map: the last content recorded for a name is the one that is applied. -/
+theorem record_last_wins (u : Updates) (n c m : Bytes) :
+    lookupU (record u n c) n = some c ∧ (m ≠ n → lookupU (record u n c) m = lookupU u m) :=
+  ⟨lookupU_record_self u n c, lookupU_record_other u n c m⟩
+
+/-! ### what the rewrite changes -/
+
+/-- Frame: the script text, the number, order and names of the entries, and every entry without a
+recorded update are unchanged. -/
+theorem apply_frame (a a' : Archive) (u : Updates) (h : applyUpdates a u = .ok a') :
+    a'.comment = a.comment ∧
+    a'.files.map (·.name) = a.files.map (·.name) ∧
+    ∀ (i : Nat) (f : File), a.files[i]? = some f → lookupU u f.name = none → a'.files[i]? = some f := by
+  obtain ⟨hc, hf⟩ := applyUpdates_ok h
+  refine ⟨hc, applyFiles_names u _ _ hf, ?_⟩
+  intro i f hi hn
+  obtain ⟨f', hf', hap⟩ := (applyFiles_ok u _ _ hf).2 i f hi
+  rw [hf', (applyFile_ok hap).2.1 hn]
+
+/-- An entry with a recorded update holds the actual content — verbatim when it needs no quoting,
+as `txtar.Quote` of it otherwise. -/
+theorem apply_sets (a a' : Archive) (u : Updates) (h : applyUpdates a u = .ok a')
+    (i : Nat) (f : File) (c : Bytes) (hi : a.files[i]? = some f) (hc : lookupU u f.name = some c) :
+    ∃ f', a'.files[i]? = some f' ∧ f'.name = f.name ∧
+      ((needsQuote c = some false ∧ f'.data = c) ∨ (needsQuote c = some true ∧ quote c = .ok f'.data)) := by
+  obtain ⟨_, hf⟩ := applyUpdates_ok h
+  obtain ⟨f', hf', hap⟩ := (applyFiles_ok u _ _ hf).2 i f hi
+  exact ⟨f', hf', (applyFile_ok hap).1, updData_ok apply_facts ((applyFile_ok hap).2.2 c hc)⟩
+
+example : applyUpdates ⟨bs "cmp stdout g\n", [⟨bs "in", bs "x\n"⟩, ⟨bs "g", bs "old\n"⟩, ⟨bs "h", bs "old\n"⟩]⟩
+      [(bs "g", bs "-- x --\n"), (bs "h", bs "new")] =
+    .ok ⟨bs "cmp stdout g\n", [⟨bs "in", bs "x\n"⟩, ⟨bs "g", bs ">-- x --\n"⟩, ⟨bs "h", bs "new"⟩]⟩ := by decide +kernel
+
+/-! ### the verdict -/
+
+/-- With UpdateScripts a mismatching in-archive `cmp` ends `ok` instead of calling Fatalf
+(`only_plain_cmp_updates`), so a script whose lines all end `ok` — those comparisons included —
+passes, and the deferred rewrite stores the formatted archive. For every command semantics. -/
+theorem update_makes_pass (c : Config σ) (s s' : σ) (script file : Bytes) (a a' : Archive) (u : Updates)
+    (hok : okFold c s (splitScript script) = some s')
+    (happly : applyUpdates a u = .ok a') (hu : u ≠ []) :
+    finish (run c s script).verdict file a u = (.pass, format a') := by
+  have hpass : (run c s script).verdict = .pass := by
+    unfold run
+    rw [verdict_pass_iff_passes ⟨rfl, rfl, rfl, rfl, rfl⟩, passes_iff]
+    exact Or.inl ⟨s', hok⟩
+  have hne : u.isEmpty = false := by cases u <;> simp_all
+  have : Gen.TsRun.applyWritesFormat = true := rfl
+  simp [finish, hne, happly, hpass, this]
+
+/-- The concrete `cmp` of the model under UpdateScripts: a mismatch against an archive entry ends
+`ok` and records (entry name, actual content); nothing else of the state changes. -/
+theorem cmp_update_ok (p : Cmds.P) (hp : p.updateScripts = true) (failed : Bool) (s : Cmds.St)
+    (name1 name2 text1 text2 entry : Bytes) (abs2 : Cmds.Path)
+    (hne : name1 ≠ name2)
+    (h1 : Cmds.readArg s name1 = .ok text1)
+    (h2 : Cmds.resolve s.cd name2 = some abs2)
+    (h3 : s.fs.read abs2 = some text2)
+    (hd : text1 ≠ text2)
+    (he : s.scriptFiles.lookup abs2 = some entry) :
+    Cmds.cmdCmp p failed s false [name1, name2] = ({ s with updates := record s.updates entry text1 }, .ok) := by
+  have hrec : doCmp ⟨p.updateScripts, false, false, text1, text2, some entry⟩ = .recorded entry text1 :=
+    (only_plain_cmp_updates _ _ _).2 ⟨hp, rfl, rfl, hd, rfl, rfl⟩
+  simp [Cmds.cmdCmp, Cmds.doCmdCmp, hne, h1, h2, h3, he, hrec, Cmds.okay]
+
+/-- In the concrete command table no command touches `ts.scriptFiles`, and `ts.scriptUpdates` changes
+only through `cmp` (never `cmpenv`, never a negated `cmp`, never without UpdateScripts): by one
+`record` of the actual content under the name of the archive entry the second argument resolves to
+— and that invocation ends `ok`. -/
+theorem updates_only_by_cmp (p : Cmds.P) (name : Bytes) (f : Cmd Cmds.St)
+    (hl : lookup (Cmds.config p) name = some f) (failed : Bool) (s : Cmds.St) (neg : Bool) (args : List Bytes) :
+    (f failed s neg args).1.scriptFiles = s.scriptFiles ∧
+    ((f failed s neg args).1.updates = s.updates ∨
+      (name = lit "cmp" ∧ neg = false ∧ p.updateScripts = true ∧
+        ∃ name1 name2 abs2 n text1, args = [name1, name2] ∧ Cmds.resolve s.cd name2 = some abs2 ∧
+          s.scriptFiles.lookup abs2 = some n ∧ Cmds.readArg s name1 = .ok text1 ∧
+          f failed s neg args = ({ s with updates := record s.updates n text1 }, .ok))) := by
+  rw [lookup_eq ⟨rfl, rfl, rfl, rfl, rfl, rfl, rfl, rfl, rfl, rfl, rfl, rfl⟩] at hl
+  simp only [Cmds.config] at hl
+  split at hl
+  · rename_i g hg
+    simp at hl
+    subst hl
+    by_cases h3 : name = lit "skip"
+    · rw [Cmds.builtin_skip p name g hg h3]
+      exact ⟨(Cmds.skip_updates failed s neg args).2, Or.inl (Cmds.skip_updates failed s neg args).1⟩
+    · by_cases h1 : name = lit "cmp"
+      · refine ⟨(Cmds.builtin_cmp p name g hg (Or.inl h1) failed s neg args).2.2, ?_⟩
+        have hg' : g = Cmds.cmdCmp p := by
+          have hm := Cmds.mem_of_lookup _ _ _ hg
+          subst h1
+          simp only [Cmds.builtinTable, List.mem_cons, Prod.mk.injEq, List.mem_nil_iff, or_false] at hm
+          rcases hm with ⟨hk, rfl⟩ | ⟨hk, rfl⟩ | ⟨hk, rfl⟩ | ⟨hk, rfl⟩ | ⟨hk, rfl⟩ | ⟨hk, rfl⟩ | ⟨hk, rfl⟩ | ⟨hk, rfl⟩ |
+            ⟨hk, rfl⟩ | ⟨hk, rfl⟩ | ⟨hk, rfl⟩ | ⟨hk, rfl⟩ | ⟨hk, rfl⟩ | ⟨hk, rfl⟩ | ⟨hk, rfl⟩ | ⟨hk, rfl⟩ | ⟨hk, rfl⟩ |
+            ⟨hk, rfl⟩ | ⟨hk, rfl⟩ | ⟨hk, rfl⟩ | ⟨hk, rfl⟩ | ⟨hk, rfl⟩ | ⟨hk, rfl⟩ | ⟨hk, rfl⟩
+          all_goals first
+            | rfl
+            | (exfalso; revert hk; decide +kernel)
+        subst hg'
+        rcases Cmds.doCmdCmp_updates cmp_facts p s neg args false with h | ⟨n1, n2, t1, abs2, raw2, t2, n, ha, hr1, hr2, hr3, hrec, hres⟩
+        · exact Or.inl h
+        · have := (only_plain_cmp_updates _ n t1).1 hrec
+          exact Or.inr ⟨h1, this.2.2.1, this.1, n1, n2, abs2, n, t1, ha, hr2, this.2.2.2.2.1, hr1, hres⟩
+      · by_cases h2 : name = lit "cmpenv"
+        · refine ⟨(Cmds.builtin_cmp p name g hg (Or.inr h2) failed s neg args).2.2, Or.inl ?_⟩
+          have hg' : g = Cmds.cmdCmpenv p := by
+            have hm := Cmds.mem_of_lookup _ _ _ hg
+            subst h2
+            simp only [Cmds.builtinTable, List.mem_cons, Prod.mk.injEq, List.mem_nil_iff, or_false] at hm
+            rcases hm with ⟨hk, rfl⟩ | ⟨hk, rfl⟩ | ⟨hk, rfl⟩ | ⟨hk, rfl⟩ | ⟨hk, rfl⟩ | ⟨hk, rfl⟩ | ⟨hk, rfl⟩ | ⟨hk, rfl⟩ |
+              ⟨hk, rfl⟩ | ⟨hk, rfl⟩ | ⟨hk, rfl⟩ | ⟨hk, rfl⟩ | ⟨hk, rfl⟩ | ⟨hk, rfl⟩ | ⟨hk, rfl⟩ | ⟨hk, rfl⟩ | ⟨hk, rfl⟩ |
+              ⟨hk, rfl⟩ | ⟨hk, rfl⟩ | ⟨hk, rfl⟩ | ⟨hk, rfl⟩ | ⟨hk, rfl⟩ | ⟨hk, rfl⟩ | ⟨hk, rfl⟩
+            all_goals first
+              | rfl
+              | (exfalso; revert hk; decide +kernel)
+          subst hg'
+          rcases Cmds.doCmdCmp_updates cmp_facts p s neg args true with h | ⟨n1, n2, t1, abs2, raw2, t2, n, ha, hr1, hr2, hr3, hrec, hres⟩
+          · exact h
+          · have := (only_plain_cmp_updates _ n t1).1 hrec
+            simp at this
+        · have := Cmds.builtin_tame p name g hg h1 h2 h3 failed s neg args
+          exact ⟨this.2.2, Or.inl this.2.1⟩
+  · have := Cmds.custom_tame p name f hl failed s neg args
+    exact ⟨this.2.2, Or.inl this.2.1⟩
+
+/-- An update that needs quoting and cannot be quoted (no final newline, or not UTF-8) fails the run
+cleanly — T.FailNow, whatever the verdict was — and leaves the script file untouched. -/
+theorem update_unquotable_fails (v : Verdict) (file : Bytes) (a : Archive) (u : Updates)
+    (hu : u ≠ []) (h : applyUpdates a u = .error .quote) :
+    finish v file a u = (.fail, file) ∧
+    ∃ f ∈ a.files, ∃ c, lookupU u f.name = some c ∧ needsQuote c = some true ∧ ∃ e, quote c = .error e := by
+  have hne : u.isEmpty = false := by cases u <;> simp_all
+  have hcaught : Gen.TsRun.updateFatalCaught = true := rfl
+  refine ⟨by simp [finish, hne, h, hcaught], ?_⟩
+  obtain ⟨f, hf, hfe⟩ := applyFiles_error u _ _ (applyUpdates_error h)
+  obtain ⟨c, hc, hce⟩ := applyFile_error hfe
+  exact ⟨f, hf, c, hc, updData_quote_error apply_facts hce⟩
+
+example : applyUpdates ⟨bs "cmp stdout g\n", [⟨bs "g", bs "old\n"⟩]⟩ [(bs "g", bs "a\n-- x --")] = .error .quote ∧
+    finish .pass (bs "F") ⟨bs "cmp stdout g\n", [⟨bs "g", bs "old\n"⟩]⟩ [(bs "g", bs "a\n-- x --")] = (.fail, bs "F") := by
+  decide +kernel
+
+/-! ### the fix-point -/
+
+/-- The rewritten file parses back to exactly the updated archive, as long as every stored content
+that was not quoted is empty or newline-terminated (quoted contents always are): nothing else in
+the file is disturbed by the new data. -/
+theorem updated_archive_reparses (file : Bytes) (a a' : Archive) (u : Updates)
+    (hparse : parse file = some a) (happly : applyUpdates a u = .ok a')
+    (hnl : ∀ f ∈ a.files, ∀ c, lookupU u f.name = some c → c = [] ∨ c.getLast? = some NL) :
+    parse (format a') = some a' := by
+  have : FLen := ⟨rfl⟩
+  have : FCR := ⟨rfl⟩
+  have : FLit := ⟨rfl, rfl⟩
+  have : FNQ := ⟨rfl⟩
+  have hwf : WF a := parse_wf hparse
+  obtain ⟨hc, hf⟩ := applyUpdates_ok happly
+  apply parse_format_of_wf
+  refine ⟨by rw [hc]; exact hwf.1, ?_⟩
+  intro f' hf'
+  obtain ⟨f, hfm, hap⟩ := applyFiles_mem u _ _ hf f' hf'
+  obtain ⟨hname, hnone, hsome⟩ := applyFile_ok hap
+  have hfok := hwf.2 f hfm
+  refine ⟨by rw [hname]; exact hfok.1, ?_⟩
+  cases hl : lookupU u f.name with
+  | none => rw [hnone hl]; exact hfok.2
+  | some c =>
+    rcases updData_ok apply_facts (hsome c hl) with ⟨hnq, hd⟩ | ⟨_, hq⟩
+    · rw [hd]; exact (bodyOK_iff_needsQuote c).2 ⟨hnl f hfm c hl, hnq⟩
+    · exact quote_bodyOK hq
+
+/-- Fix-point: when the recorded contents are representable (empty or newline-terminated, no quoting
+needed) the second run reads, for every updated entry, exactly the content the first run saw; a
+comparison of the same output against it is equal — it ends `ok` and records nothing — and with
+nothing recorded the file is not written again. -/
+theorem rerun_fixpoint (file : Bytes) (a a' : Archive) (u : Updates)
+    (hparse : parse file = some a) (happly : applyUpdates a u = .ok a')
+    (hrep : ∀ f ∈ a.files, ∀ c, lookupU u f.name = some c → Representable c) :
+    parse (format a') = some a' ∧
+    (∀ (i : Nat) (f : File) (c : Bytes), a.files[i]? = some f → lookupU u f.name = some c →
+        ∃ f', a'.files[i]? = some f' ∧ f'.name = f.name ∧ f'.data = c ∧
+          ∀ (upd env : Bool), doCmp ⟨upd, env, false, c, f'.data, some f'.name⟩ = .ok) ∧
+    (∀ v, finish v (format a') a' [] = (v, format a')) := by
+  refine ⟨updated_archive_reparses file a a' u hparse happly (fun f hf c hc => (hrep f hf c hc).1), ?_,
+    fun v => no_update_no_write v _ _⟩
+  intro i f c hi hc
+  obtain ⟨f', hf', hname, hdata⟩ := apply_sets a a' u happly i f c hi hc
+  have hf : f ∈ a.files := List.mem_of_getElem? hi
+  have hnq := (hrep f hf c hc).2
+  have hd : f'.data = c := by
+    rcases hdata with ⟨_, hd⟩ | ⟨hq, _⟩
+    · exact hd
+    · rw [hnq] at hq; simp at hq
+  refine ⟨f', hf', hname, hd, ?_⟩
+  intro upd env
+  rw [doCmp_eq cmp_facts]
+  simp [hd]
+
+example : parse (bs "cmp stdout g\n-- g --\nold\n") = some ⟨bs "cmp stdout g\n", [⟨bs "g", bs "old\n"⟩]⟩ ∧
+    applyUpdates ⟨bs "cmp stdout g\n", [⟨bs "g", bs "old\n"⟩]⟩ [(bs "g", bs "new\n")] =
+      .ok ⟨bs "cmp stdout g\n", [⟨bs "g", bs "new\n"⟩]⟩ ∧
+    Representable (bs "new\n") ∧ ¬ Representable (bs "new") ∧ ¬ Representable (bs "-- x --\n") := by
+  refine ⟨by decide +kernel, by decide +kernel, ?_, ?_, ?_⟩
+  · exact ⟨by decide +kernel, by decide +kernel⟩
+  · intro h; exact absurd h.1 (by decide +kernel)
+  · intro h; exact absurd h.2 (by decide +kernel)
 
 end GIV.C16
